@@ -37,6 +37,13 @@ func c17Build(st string) *sched.Exec {
 	switch st {
 	case "suspended":
 		n0.Suspend()
+	case "suspended-idle":
+		// everything committed, every node idle (its last syncs recorded nothing: other nodes' heads are parked), then suspended
+		x.FairSuffix(40)
+		for _, a := range []sched.Action{{K: "G", A: 0, B: 1}, {K: "G", A: 2, B: 0}, {K: "G", A: 0, B: 2}, {K: "G", A: 1, B: 0}} {
+			x.Step(a)
+		}
+		n0.Suspend()
 	case "maintenance":
 		x.C.Cfg.Maintenance = map[int]bool{0: true}
 		x.C.Restart(0, true, false) // bootstrap from its database in maintenance mode
@@ -134,7 +141,7 @@ func init() {
 							req.Known = map[uint32]int{}
 						}
 						resp, err = c.ProcessRPC(0, "gate "+kind, req)
-						if it.State == "suspended" {
+						if strings.HasPrefix(it.State, "suspended") {
 							// a node suspended at run time still serves a correct difference
 							if err != nil {
 								viol("suspended-sync-refused", fmt.Sprintf("node suspended at run time answered a SyncRequest with an error: %v", err), map[string]interface{}{"state": it.State, "sequence": names})
@@ -257,7 +264,7 @@ func init() {
 			depth = 4
 		}
 		var items []GateItem
-		for _, st := range []string{"suspended", "maintenance", "joining", "catchingup", "shutdown"} {
+		for _, st := range []string{"suspended", "suspended-idle", "maintenance", "joining", "catchingup", "shutdown"} {
 			for k := range gateReqs {
 				items = append(items, GateItem{State: st, Depth: depth, Prefix: []int{k}})
 			}
@@ -399,7 +406,7 @@ func init() {
 			samples = append(samples, s)
 		}
 		cov["samples"] = samples
-		cov["rule"] = fmt.Sprintf("(a) gate: node 0 with history in each of {suspended at run time, maintenance mode (bootstrapped from its database), joining, catching-up, shut down}; all sequences of depth %d over %v delivered to the real processRPC / addTransaction; after every request a digest (known events, last block, undetermined count, head, commits) must be unchanged, EagerSync and Join must be answered with an error, and the node suspended at run time must answer SyncRequests with exactly the reference difference (events the requester lacks per its known map, parents before children, cut at the limit). The state does not move, so all sequences run on one instance (closed BFS). (b) self-suspension: n=4 with two validators silent (no quorum), suspend limit 1 (and 2 without submissions, one level deeper), all sequences of depth %d over {live node ticks and its selector picks any other node, submission}; a tick = gossip + checkSuspend as in the babble loop; whenever new undetermined events exceed limit x validators before checkSuspend the node must be Suspended after it; plus a 5->3 validator history followed by loss of quorum (the threshold must follow the current validator count) with every single tick deviation, plus the leave seed for the eviction clause", depth, gateReqs, d2)
+		cov["rule"] = fmt.Sprintf("(a) gate: node 0 with history in each of {suspended at run time while busy, suspended at run time after the network had gone idle (parked heads), maintenance mode (bootstrapped from its database), joining, catching-up, shut down}; all sequences of depth %d over %v delivered to the real processRPC / addTransaction; after every request a digest (known events, last block, undetermined count, head, commits) must be unchanged, EagerSync and Join must be answered with an error, and the node suspended at run time must answer SyncRequests with exactly the reference difference (events the requester lacks per its known map, parents before children, cut at the limit). The state does not move, so all sequences run on one instance (closed BFS). (b) self-suspension: n=4 with two validators silent (no quorum), suspend limit 1 (and 2 without submissions, one level deeper), all sequences of depth %d over {live node ticks and its selector picks any other node, submission}; a tick = gossip + checkSuspend as in the babble loop; whenever new undetermined events exceed limit x validators before checkSuspend the node must be Suspended after it; plus a 5->3 validator history followed by loss of quorum (the threshold must follow the current validator count) with every single tick deviation, plus the leave seed for the eviction clause", depth, gateReqs, d2)
 		rep.Assumptions = []string{"the babble() loop itself is not driven: one loop iteration is executed by the harness as gossip followed by checkSuspend, i.e. the overlap of checkSuspend with a still-running gossip goroutine is serialised"}
 		if tot.SyncOK == 0 && len(rep.Violations) == 0 {
 			rep.Finish()
